@@ -66,6 +66,42 @@ fn pat_idents(p: &syn::Pat, out: &mut Vec<String>) -> Result<(), String> {
     }
 }
 
+/// the constructor names of a pattern like `(IntVar(b, s), Name(name)) | (Name(name), IntVar(b, s))`:
+/// one pair per alternative, sorted — so neither the order of the alternatives
+/// nor the names of the bound variables matter
+fn ctor_pairs(p: &syn::Pat) -> Vec<(String, String)> {
+    fn head(p: &syn::Pat) -> String {
+        match p {
+            syn::Pat::TupleStruct(t) => t.path.segments.last().map(|s| s.ident.to_string()).unwrap_or_default(),
+            syn::Pat::Path(t) => t.path.segments.last().map(|s| s.ident.to_string()).unwrap_or_default(),
+            syn::Pat::Ident(i) => match &i.subpat {
+                Some((_, sub)) => head(sub),
+                None => {
+                    // a bare identifier: a constructor such as `Never`, or a binder
+                    let n = i.ident.to_string();
+                    if n.chars().next().map(|c| c.is_uppercase()).unwrap_or(false) { n } else { "_".into() }
+                }
+            },
+            syn::Pat::Reference(r) => head(&r.pat),
+            _ => "_".into(),
+        }
+    }
+    let mut out = Vec::new();
+    let alts: Vec<&syn::Pat> = match p {
+        syn::Pat::Or(o) => o.cases.iter().collect(),
+        other => vec![other],
+    };
+    for a in alts {
+        if let syn::Pat::Tuple(t) = a {
+            if t.elems.len() == 2 {
+                out.push((head(&t.elems[0]), head(&t.elems[1])));
+            }
+        }
+    }
+    out.sort();
+    out
+}
+
 /// the text between `start` and the matching close of the brace that `start` ends with
 fn braced_after<'a>(s: &'a str, start: &str) -> Option<&'a str> {
     let i = s.find(start)? + start.len();
@@ -197,20 +233,26 @@ fn c07facts(repo: &Path) -> Result<String, String> {
     }
     let mut int_arm = None;
     let mut float_arm = None;
+    let mut never_arms = 0;
     let mut pats = Vec::new();
     for arm in &um[0].arms {
         let p = norm(&arm.pat);
-        if p == "(IntVar(b,s),Name(name))|(Name(name),IntVar(b,s))" {
+        let pairs = ctor_pairs(&arm.pat);
+        let is = |x: &str, y: &str| pairs == vec![(x.to_string(), y.to_string()), (y.to_string(), x.to_string())];
+        if is("IntVar", "Name") {
             int_arm = Some(norm(&arm.body));
         }
-        if p == "(FloatVar(b),Name(name))|(Name(name),FloatVar(b))" {
+        if is("FloatVar", "Name") {
             float_arm = Some(norm(&arm.body));
+        }
+        if pairs.iter().any(|(a, b)| (a == "Never") != (b == "Never")) && arm.guard.is_none() {
+            never_arms += 1;
         }
         pats.push(p);
     }
     // the never type: is there an arm that lets `Never` unify with anything inside
     // `unify_inner` (i.e. also in nested positions, in both directions)?
-    let never_arm = pats.iter().any(|p| p == "(Never,x)|(x,Never)");
+    let never_arm = never_arms > 0;
     let int_arm = int_arm.ok_or("unify_inner: IntVar × Name arm not found")?;
     let float_arm = float_arm.ok_or("unify_inner: FloatVar × Name arm not found")?;
     let args_test = "if!name.arguments.is_empty(){returnNone;}";
